@@ -66,7 +66,12 @@ def oracle(case: dict, recs: list[dict]) -> list[Failure]:
         if op[0] != "tick":
             continue
         inc = op[2] / 8
-        st, started = b.get("state_at_clock"), b.get("started_at_clock")   # None: clock update not executed
+        # "was Running": judged from the System State at the operation boundary before this tick (what
+        # process_time_only_while_running proves: Running when the tick began); where the harness could also see
+        # the state at the clock update (an instance wrapper that a rename simply disables) that must be Running too
+        st, started = a["state"], a["started"]
+        if st == "Running" and b.get("state_at_clock") not in (None, "Running"):
+            st = b.get("state_at_clock")
         if a["run_id"] is not None and a["run_id"] == b["run_id"] and inc >= 0:
             if b["pt"] < a["pt"] or b["rt"] < a["rt"]:
                 fail("clock-decreases-during-run", i, f"pt {a['pt']}->{b['pt']} rt {a['rt']}->{b['rt']}")
